@@ -12,7 +12,8 @@ CLAIMS = {
         cat="proof",
         text="Contract on the real Avoid::bends (helpers inlined), discharged by CBMC for all non-NaN doubles and all 16 direction pairs: "
              "estimate <= true free-space minimum number of bends from an independent search oracle (admissibility clause of C05). "
-             "estimatedCostSpecific's orthogonal branch is proved against bends' contract. The optimality/axis-parallel clauses are undecided residue.",
+             "The bend count charged by estimatedCostSpecific is proved admissible against bends' contract (call-site preconditions checked); Polygon::simplify drops a route point "
+             "iff exactly collinear (tolerance 0 demanded at the call site), so bends survive into the display route. Optimality of the search is undecided residue.",
         note=BASE_TB + "tools/minb.py search oracle. Residue NOT claimed: visibility graph contains an optimal path, pruning, axis-parallel segments, grid-oracle agreement.",
         tech="CBMC code contracts (goto-instrument --dfcc --enforce-contract) on verbatim C++ slices",
         ref="5/C05"),
